@@ -106,7 +106,7 @@ Proof. reflexivity. Qed.
 
 (* ---- opening a log over any selection of a [pinv] log's entries gives a [pinv] log (effective clock) ---- *)
 Theorem pinv_open U src keep key s deny :
-  univ_ok U -> pinv U src -> pinv U (lift (open_from src keep key s deny)).
+  univ_ok U -> pinv U src -> pinv U (lift (open_from src keep (l_id src) key s deny)).
 Proof.
   intros UO I. set (tmp := pick (l_entries src) keep).
   assert (TN : NoDup (map e_hash tmp)) by (apply pick_hashes_nodup; apply (pinv_well_keyed _ _ I)).
@@ -124,7 +124,7 @@ Proof.
   exact R.
 Qed.
 
-Lemma open_from_set_time src t keep key s deny : open_from (set_time src t) keep key s deny = open_from src keep key s deny.
+Lemma open_from_set_time src t keep id key s deny : open_from (set_time src t) keep id key s deny = open_from src keep id key s deny.
 Proof. reflexivity. Qed.
 
 (* ---- each operation on the effective clock ---- *)
@@ -221,7 +221,7 @@ Qed.
 (* ---- histories ---- *)
 Definition owf_step (s : sys) (o : op) : Prop :=
   match o with
-  | OOpen _ _ _ _ _ => True
+  | OOpen src _ id _ _ _ => forall l, nth_error (s_logs s) src = Some l -> id = l_id l   (* opened under the id its entries carry *)
   | _ => pwf_step s o
   end.
 Fixpoint owf_from (s : sys) (ops : list op) : Prop :=
@@ -232,7 +232,7 @@ Fixpoint owf_from (s : sys) (ops : list op) : Prop :=
 Definition owf (ops : list op) : Prop := owf_from empty_sys ops.
 
 Lemma pwf_step_owf s o : pwf_step s o -> owf_step s o.
-Proof. destruct o; cbn; auto. Qed.
+Proof. destruct o; cbn; auto; contradiction. Qed.
 Lemma pwf_from_owf ops : forall s, pwf_from s ops -> owf_from s ops.
 Proof. induction ops as [|o ops IH]; intros s; cbn; [auto|]. intros [A B]. split; [now apply pwf_step_owf|auto]. Qed.
 Lemma pwf_owf ops : pwf ops -> owf ops.
@@ -272,7 +272,7 @@ Qed.
 Theorem osinv_step s o : osinv s -> owf_step s o -> osinv (fst (step s o)).
 Proof.
   intros SI W. pose proof SI as [UO IL].
-  destruct o as [id key sf deny t0|r payload pc h|r src size|r key|r mh|r io|r payload pc h|r|osrc okeep okey osf odeny]; cbn [step].
+  destruct o as [id key sf deny t0|r payload pc h|r src size|r key|r mh|r io|r payload pc h|r|osrc okeep oid okey osf odeny]; cbn [step].
   - (* ONew *)
     cbn [fst]. apply osinv_new_replica; [exact SI|]. apply pinv_lift, pinv_new.
   - (* OAppend *)
@@ -319,7 +319,8 @@ Proof.
   - (* OOpen *)
     destruct (nth_error (s_logs s) osrc) as [l|] eqn:L; [|exact SI]. cbn [fst].
     apply osinv_new_replica; [exact SI|].
-    rewrite <- (open_from_set_time l (l_time (lift l))). apply pinv_open; [exact UO|]. exact (IL osrc l L).
+    rewrite (W l L). change (open_from l okeep (l_id l) okey osf odeny) with (open_from (lift l) okeep (l_id (lift l)) okey osf odeny).
+    apply pinv_open; [exact UO|]. exact (IL osrc l L).
 Qed.
 
 Theorem osinv_run_from ops : forall s, osinv s -> owf_from s ops -> osinv (run_from s ops).
@@ -349,7 +350,7 @@ Qed.
 Theorem otbound_step B s o : 0 <= B -> seed_of o <= B -> osinv s -> owf_step s o -> ptbound B s -> ptbound B (fst (step s o)).
 Proof.
   intros HB HS SI W [TU TL]. destruct SI as [UO IL].
-  destruct o as [id key sf deny t0|r payload pc h|r src size|r key|r mh|r io|r payload pc h|r|osrc okeep okey osf odeny]; cbn [step].
+  destruct o as [id key sf deny t0|r payload pc h|r src size|r key|r mh|r io|r payload pc h|r|osrc okeep oid okey osf odeny]; cbn [step].
   - split; [exact TU|]. cbn [fst s_logs s_univ]. intros r l H.
     destruct (Nat.lt_ge_cases r (length (s_logs s))) as [Hl|Hl].
     + rewrite nth_error_app1 in H by assumption. eauto.
@@ -531,11 +532,134 @@ From IpfsLog Require Import Proofs.WfBool.
 
 Lemma owf_stepb_owf s o : owf_stepb s o = true -> owf_step s o.
 Proof.
-  destruct o; cbn [owf_stepb owf_step]; auto; intros H; apply pwf_stepb_pwf in H; exact H.
+  destruct o; cbn [owf_stepb owf_step]; auto; try (intros H; apply pwf_stepb_pwf in H; exact H).
+  intros H l L. rewrite L in H. now apply N.eqb_eq.
 Qed.
 
 Theorem owfb_owf ops : owfb ops = true -> owf ops.
 Proof.
   unfold owfb, owf. generalize empty_sys. induction ops as [|o ops IH]; intros s; cbn [owfb_from owf_from]; [auto|].
   intros H. apply andb_true_iff in H. destruct H as [H1 H2]. split; [now apply owf_stepb_owf|auto].
+Qed.
+
+(* ---- merges between replicas of such histories: the C05/C06/C16 facts about a merge ---- *)
+From IpfsLog Require Import Proofs.StepProofs Proofs.BoundedProofs Proofs.PBounded.
+
+Lemma join_lift_fields l o same size l' out : join l o same size = (l', out) ->
+  exists t', join (lift l) (lift o) same size = (set_time l' t', out).
+Proof.
+  intros J. destruct (join_set_time l (l_time (lift l)) o same size) as [t' JT]. rewrite J in JT. cbn [fst snd] in JT.
+  exists t'. exact JT.
+Qed.
+
+Lemma join_lift_left l o same size l' out : join l o same size = (l', out) ->
+  exists t', join (lift l) o same size = (set_time l' t', out).
+Proof.
+  intros J. destruct (join_set_time l (l_time (lift l)) o same size) as [t' JT]. rewrite J in JT. cbn [fst snd] in JT.
+  exists t'. exact JT.
+Qed.
+
+Section OwfMerges.
+  Variables (ops : list op) (r : nat) (l : log).
+  Hypothesis W : owf ops.
+  Hypothesis L : nth_error (s_logs (run ops)) r = Some l.
+
+  Let U := s_univ (run ops).
+  Let UO : univ_ok U := proj1 (osinv_run ops W).
+  Let I : pinv U (lift l) := proj2 (osinv_run ops W) r l L.
+
+  (* merging ANY other log object never removes or replaces a held entry *)
+  Theorem ojoin_keeps_held_entries o same size l' out :
+    size < 0 -> join l o same size = (l', out) ->
+    forall k v, In (k, v) (l_entries l) -> In (k, v) (l_entries l').
+  Proof.
+    intros Hs J. destruct (join_lift_left l o same size l' out J) as [t' JT].
+    exact (join_keeps_held_entries U (lift l) o same size _ out I Hs JT).
+  Qed.
+
+  (* the heads after a merge of ANY other log object are the log's own held-or-checked entries *)
+  Theorem ojoin_heads_are_own_verified_entries o size l' :
+    size < 0 -> join l o false size = (l', Ok tt) ->
+    forall k v, In (k, v) (l_heads l') ->
+      In (k, v) (l_entries l') /\
+      (In (k, v) (l_entries l) \/ (e_logid v = l_id l /\ entry_ok l v = true)).
+  Proof.
+    intros Hs J k v Hh. destruct (join_lift_left l o false size l' (Ok tt) J) as [t' JT].
+    pose proof (join_heads_are_own_entries U (lift l) o size _ I Hs JT k v Hh) as He.
+    split; [exact He|].
+    destruct (join_admits_only_valid l o size l' Hs J k v He) as [?|[A [B _]]]; auto.
+  Qed.
+
+  (* with any bound, from any replica: only valid entries are admitted *)
+  Theorem ojoin_any_bound_admits_only_valid src o size l' :
+    nth_error (s_logs (run ops)) src = Some o -> join l o false size = (l', Ok tt) ->
+    forall k v, In (k, v) (l_entries l') ->
+      In (k, v) (l_entries l) \/
+      (e_logid v = l_id l /\ entry_ok l v = true /\ In (k, v) (l_entries o) /\ ~ In k (okeys (l_entries l))).
+  Proof.
+    intros O J. destruct (join_lift_fields l o false size l' (Ok tt) J) as [t' JT].
+    exact (join_any_bound_admits_only_valid U (lift l) (lift o) size _ UO I (proj2 (osinv_run ops W) src o O) JT).
+  Qed.
+End OwfMerges.
+
+(* ---- the main clause of C16 between any two [pinv] logs (the statement for replicas of histories
+   is an instance, for [pwf] histories directly and for [owf] histories through [lift]) ---- *)
+Lemma pbounded_join_keeps_newest U l o size lu :
+  univ_ok U -> pinv U l -> pinv U o -> times_ok l -> times_ok o ->
+  l_id l = l_id o -> 0 <= size ->
+  join l o false (-1) = (lu, Ok tt) ->
+  order_total lu ->
+  exists vu l',
+    values lu = Some vu /\
+    join l o false size = (l', Ok tt) /\
+    let keep := lastn (Z.to_nat size) (oslice vu) in
+    (forall k v, In (k, v) (l_entries l') <-> In v keep /\ e_hash v = k) /\
+    (forall k v, In (k, v) (l_heads l') <-> In v keep /\ e_hash v = k /\ ~ named_in keep k) /\
+    (forall n, In n (okeys (l_next l')) <-> named_in keep n) /\
+    NoDup (okeys (l_entries l')) /\
+    (Z.of_nat (length vu) <= size -> forall k v, In (k, v) (l_entries l') <-> In (k, v) (l_entries lu)).
+Proof.
+  intros UO Il Io TOl TOo Hid Hs J OT.
+  unfold join, join_reads in J.
+  assert (E0 : N.eqb (l_id l) (l_id o) = true) by (apply N.eqb_eq; exact Hid). rewrite E0 in J. cbn [negb] in J.
+  destruct (difference (l_entries o) (oslice (l_heads o)) l) as [ni|] eqn:D; [|discriminate].
+  destruct (forallb (entry_ok l) (oslice ni)) eqn:OK; cbn [negb] in J; [|discriminate].
+  cbn [Z.ltb Z.compare] in J. fold_j_ents l ni. rewrite (pown_heads_o _ l o UO Il Io Hid ni D) in J. injection J as <-.
+  assert (TO : times_ok (j_log l o ni)).
+  { intros e He. apply ents_In in He. destruct He as [k He]. cbn [j_log l_entries] in He.
+    apply (proj2 (pj_ents_spec _ l o Il Io Hid ni D)) in He. destruct He as [He|He].
+    - apply TOl. apply ents_In; eauto.
+    - apply (pni_sound _ l o Io Hid ni D) in He. destruct He as [He _]. apply TOo. apply ents_In; eauto. }
+  destruct (pbounded_join_spec _ l o UO Il Io Hid ni D OK TO OT size Hs) as [vu [l' [V [J' [A [B [C _]]]]]]].
+  destruct (pbounded_join_next _ l o UO Il Io Hid ni D OK TO OT size Hs) as [vu2 [l2 [V2 [J2 N2]]]].
+  rewrite V in V2. injection V2 as <-. rewrite J' in J2. injection J2 as <-.
+  exists vu, l'. split; [exact V|]. split; [exact J'|]. cbn zeta.
+  split; [exact A|]. split; [exact B|]. split; [exact N2|]. split; [exact C|].
+  intros Hl. exact (pbounded_join_large _ l o UO Il Io Hid ni D OK TO OT size Hs vu l' V J' Hl).
+Qed.
+
+Theorem obounded_join_keeps_newest ops r src l o size lu :
+  owf ops -> hist_bound ops < two63 ->
+  nth_error (s_logs (run ops)) r = Some l -> nth_error (s_logs (run ops)) src = Some o ->
+  l_id l = l_id o -> 0 <= size ->
+  join l o false (-1) = (lu, Ok tt) ->
+  order_total lu ->
+  exists vu l',
+    values lu = Some vu /\
+    join l o false size = (l', Ok tt) /\
+    let keep := lastn (Z.to_nat size) (oslice vu) in
+    (forall k v, In (k, v) (l_entries l') <-> In v keep /\ e_hash v = k) /\
+    (forall k v, In (k, v) (l_heads l') <-> In v keep /\ e_hash v = k /\ ~ named_in keep k) /\
+    (forall n, In n (okeys (l_next l')) <-> named_in keep n) /\
+    NoDup (okeys (l_entries l')) /\
+    (Z.of_nat (length vu) <= size -> forall k v, In (k, v) (l_entries l') <-> In (k, v) (l_entries lu)).
+Proof.
+  intros W Hlen L O Hid Hs J OT. destruct (osinv_run ops W) as [UO IL].
+  destruct (join_lift_fields l o false (-1) lu (Ok tt) J) as [tu JU].
+  destruct (pbounded_join_keeps_newest _ (lift l) (lift o) size (set_time lu tu) UO (IL r l L) (IL src o O)
+              (otimes_in_range ops r l W Hlen L) (otimes_in_range ops src o W Hlen O) Hid Hs JU OT)
+    as [vu [L' [V [JB Rest]]]].
+  destruct (join l o false size) as [l' out] eqn:J'.
+  destruct (join_lift_fields l o false size l' out J') as [t' JT]. rewrite JT in JB. injection JB as <- ->.
+  exists vu, l'. split; [exact V|]. split; [reflexivity|]. exact Rest.
 Qed.
